@@ -316,6 +316,7 @@ class C17(F.Check):
     def run_job(self, job):
         res = F.JobResult()
         cfg = job['cfg']
+        fresh_observation(cfg['probe'])      # reference taken before any history has run in this process
 
         def check(ch, result):
             env, problems, truncated = result
